@@ -51,6 +51,7 @@ def cases(tier, seed):
     for mode in ("diff", "w", "both"):
         for sg in (None, [2, 8, 1, 6], [3, 9, 1, 7], [1, 7, 2, 7]):
             out.append(dict(mode="roms", vmode=mode, subgrid=sg))
+        out.append(dict(mode="roms", vmode=mode, subgrid=None if mode != "w" else [20, 199, 30, 219], big=True))
     return out
 
 
@@ -232,19 +233,22 @@ def run_roms(case):
     from ladim.timekeeper import TimeKeeper
     from ladim.tracker import Tracker
 
-    jj, ii = np.meshgrid(np.arange(8), np.arange(10), indexing="ij")
+    IM, JM = (200, 220) if case.get("big") else (10, 8)  # big: more cells than fit in 15 bits
+    jj, ii = np.meshgrid(np.arange(JM), np.arange(IM), indexing="ij")
     h = 20.0 + 13.0 * ((ii * 3 + jj * 5) % 4)
     # in half of the cases the critical depth hc exceeds the depth of the shallowest cells: the bottom is still the cell's own h
-    w = world.World(imax=10, jmax=8, N=2, h=h, dx=100.0, hc=25.0 if case["subgrid"] in (None, [3, 9, 1, 7]) else 0.0)
+    w = world.World(imax=IM, jmax=JM, N=2, h=h, dx=100.0, hc=25.0 if case["subgrid"] in (None, [3, 9, 1, 7]) else 0.0)
     d = util.scratch("c15")
     f = w.write_file(d / "g.nc", [dict(t=S0, **w.zeros())])
     sg = case["subgrid"]
-    lim = sg or [1, 9, 1, 7]
+    lim = sg or [1, IM - 1, 1, JM - 1]
     mods = {}
     mods["time"] = TimeKeeper(start=world.iso(S0), stop=world.iso(S0 + 100 * DT), dt=DT)
     mods["state"] = st = State()
     mods["grid"] = Grid(f, subgrid=sg)
     P = [(x, y) for x in np.arange(lim[0] + 0.6, lim[1] - 1.5, 0.7) for y in np.arange(lim[2] + 0.6, lim[3] - 1.5, 0.7)]
+    if case.get("big"):
+        P = [(x, y) for x in (5.3, 23.8, 77.7, 150.2, 195.6) for y in (3.4, 33.3, 100.6, 163.3, 164.2, 165.1, 215.7) if lim[0] + 0.5 < x < lim[1] - 1.5 and lim[2] + 0.5 < y < lim[3] - 1.5]
     fd, fw = dict(diff=(1, 0), w=(0, 1), both=(0.75, 0.25))[case["vmode"]]
     ds = [0.0] + [sg_ * q for hv in sorted(set(h.ravel().tolist())) for q in (hv * 2.0 ** -10, hv / 2, 0.99 * hv) for sg_ in (1, -1)]
     viols, nt, ntot = [], 0, 0
